@@ -314,7 +314,13 @@ func (io *c07IO) Hook(data []byte, reqAddr *string) error {
 	return nil
 }
 
-func (io *c07IO) CheckUDP(reqAddr string) error { return nil }
+// CheckUDP is the outbound policy lookup (an ACL engine that may resolve the name): it takes time,
+// so it is a scheduling point (added after the independently seeded change C03-3: a session closed
+// while the lookup for a new destination is in flight).
+func (io *c07IO) CheckUDP(reqAddr string) error {
+	io.w.e.Point("env", nil, "CheckUDP")
+	return nil
+}
 
 func (io *c07IO) UDP(reqAddr string) (UDPConn, error) {
 	w := io.w
@@ -991,6 +997,14 @@ func c07Scenarios() []*c07Scn {
 		{name: "read-error-then-datagram", quick: q, thorough: t,
 			envs:   [][]c07Step{{c07Dg(1, "x:1"), c07Re(1), c07Dg(1, "x:1"), c07Rp(1)}},
 			checks: []int64{s / 2}},
+		// a datagram to a NEW destination of an existing session (policy lookup in flight) races with
+		// the socket read error that closes the session, and with the sweep that expires it
+		{name: "new-destination-races-close", quick: q, thorough: t,
+			envs:   [][]c07Step{{c07Dg(1, "x:1"), c07Dg(1, "y:2")}, {c07Re(1)}},
+			checks: []int64{s / 2}},
+		{name: "new-destination-races-sweep", quick: q, thorough: t,
+			envs:   [][]c07Step{{c07Dg(1, "x:1"), c07Sl(c07Timeout + c07Eps), c07Sl(c07Timeout - 2*c07Eps), c07Dg(1, "y:2")}},
+			checks: []int64{9 * s / 2}},
 		// dial / write / send faults on a two-datagram session with a reply
 		{name: "faults", quick: q, thorough: t2, twin: td, fDial: true, fWrite: true, fSend: true,
 			envs:   [][]c07Step{{c07Dg(1, "x:1"), c07Dg(1, "y:2"), c07Rp(1)}},
